@@ -64,6 +64,15 @@ func (k *c09) RunCase(c *core.Ctx, i int) {
 	o.Unicode = r.Intn(2) == 0
 	o.Depth1 = r.Intn(4) == 0
 	j, info := gen.Accepted(r, o)
+	lastDate := info.Dates[len(info.Dates)-1]
+	if r.Intn(12) == 0 {
+		gen.ShiftFar(r, j, 1) // period reports over the gap: keep it to 280 years
+		for _, d := range j.Dirs {
+			if d.Date > lastDate {
+				lastDate = d.Date
+			}
+		}
+	}
 	// tag accrued transactions, add multi-line descriptions
 	acr := 0
 	features := map[string]bool{}
@@ -129,7 +138,7 @@ func (k *c09) RunCase(c *core.Ctx, i int) {
 		fail("print-not-idempotent", "print(print(J)) differs from print(J): "+firstDiff(string(p1.Stdout), string(p2.Stdout)), ex)
 		return
 	}
-	to := (info.Dates[len(info.Dates)-1] + 200).String()
+	to := (lastDate + 200).String()
 	flagSets := [][]string{
 		{"balance", "-a", "--to", to},
 		{"balance", "-a", "--to", to, "--months", "--csv"},
